@@ -43,6 +43,14 @@ def _configure():
         _configured[0] = True
 
 
+class Runaway(BaseException):
+    """Raised by the probes when a run creates an absurd number of Request objects (a redirect loop that
+    does not terminate): a BaseException, so that nothing in cherrypy swallows it."""
+
+
+MAX_REQUESTS = 40
+
+
 class ProbeError(Exception):
     """The 'arbitrary Exception' of the fault plans; its message carries a marker."""
 
@@ -130,6 +138,8 @@ class ProbeRequest(_cprequest.Request):
         run = _run[0]
         self._vp_idx = len(run.reqs)
         run.reqs.append(self)
+        if len(run.reqs) > MAX_REQUESTS:
+            raise Runaway()
 
     def close(self):
         run = _run[0]
@@ -335,6 +345,8 @@ def run_real(plan, app_wrapper=None):
                 n += 1
         except Exception as e:     # noqa: BLE001 - exactly what C01 forbids; recorded, not raised
             escaped = 'call/next: %s: %s' % (type(e).__name__, e)
+        except Runaway:
+            escaped = 'call/next: Runaway: more than %d Request objects for one request' % MAX_REQUESTS
         for _ in range(plan['closes']):
             run.j.append('C')
             if it is not None and hasattr(it, 'close'):
